@@ -140,8 +140,20 @@ def check_c02(ctx, sess, out):
         recs.append(r)
         if not close(r.lp, e.logprob, 1e-9, 1e-9):
             kind = "emitting" if e.obs_ne == 0 else "non-emitting"
-            vs.append(V("C02/logprob/%s/%s" % (model.family, kind),
-                        where + " reported=%r model=%r" % (e.logprob, r.lp), out))
+            cls = "C02/logprob/%s/%s" % (model.family, kind)
+            # Root-cause attribution for the listed finding: a second-order (going-back) penalty, a
+            # matcher that has been expanded at least once (widen / extend), the entry reports MORE
+            # than its current chain gives, and the gap is explained by the going-back penalty alone.
+            if model.g and sess.matcher.expand_now > 0 and i >= 2 and e.logprob > r.lp:
+                r2 = rec_from_entry(e)
+                model.g = False
+                try:
+                    model.score_next(None, recs[i - 1], r2)
+                finally:
+                    model.g = True
+                if e.logprob <= r2.lp + 1e-9 * (1 + abs(r2.lp)):
+                    cls = "C02/logprob/second-order-stale-after-expansion"
+            vs.append(V(cls, where + " reported=%r model=%r" % (e.logprob, r.lp), out))
             return vs
         if r.length != e.length:
             vs.append(V("C02/length", where + " reported=%r model=%r" % (e.length, r.length), out))
